@@ -282,6 +282,11 @@ CHECKS = {
     technique='runtime monitoring: metamorphic monitor over limits (reproducibility, monotonicity, sharp threshold found by binary search) plus reference answers, nesting and leftover-state probes',
     text="For 10 goal families with known answers (deterministic recursion, naive reverse, member/between enumerations, failing goals, cuts, if-then-else, inner findall, arithmetic) the outcome list of call_with_inference_limit/3 is observed at 12-22 limits per goal: the threshold below which the limit is exceeded must be sharp, every outcome must repeat on the same machine and on a second machine, answers at a smaller limit must be a prefix of those at a larger one and equal the unrestricted answers from the threshold on; a nested limit must not hide the inner goal's inferences from the outer count, work after an exceeded inner limit must run, an exception inside must propagate, an infinite loop must be stopped, and a reference goal's threshold is re-measured after every family (no leftover state).",
     note='true vs ! in the result argument is not asserted; a nested call may add a constant overhead of at most 200 inferences.'),
+ 'C25': dict(
+    level='exploration',
+    technique='runtime monitoring: reference model (Python) of ISO 8.10 over random ground fact tables whose clause order is known; all groups of bagof/setof are enumerated by backtracking',
+    text='Random fact tables p/3 (0-10 ground rows incl. duplicates) are loaded and queried with generator goals with 0-2 given arguments; findall/3, findall/4 with a tail, templates with an extra unbound variable (fresh copies), bagof/3 and setof/3 with 0-2 free variables and ^ on any subset of them (all groups, in standard order of the witness), empty solution sets, forall/2 against its double negation, countall/2, call_nth/2 with the index unbound, given, 0 and out of range, findall nested in setof-driven enumeration, and an exception thrown by the n-th solution followed by an ordinary findall must all equal the model.',
+    note='Facts are ground (non-ground witnesses and attributed variables in templates are not generated); bignum first arguments are left to C05/C06 (known finding K2).'),
 }
 
 NOT_APPLICABLE_REASON_UNBUILT = ('check designed in DESIGN.md but not built/validated yet in this session; '
